@@ -1645,8 +1645,10 @@ def P12(m, R):
         else:
             R.ok(f, loop, '%s correct in all %d scenarios (<=3 points x regions <start,=start,inside,=end,>end x list emptiness)' % (lab, n_scen), construct='slice ' + lab)
     # (f) the only return that bypasses the closing block is the empty-slice one
+    # (returns after the scan are followed by the scenario simulation above; this concerns the ones before it)
+    pre_nodes = {id(x) for st_ in f.body[:f.body.index(loop)] for x in ast.walk(st_)} if loop in f.body else set()
     rets = [n for n in f.walk() if isinstance(n, ast.Return)]
-    early = [r for r in rets if r is not f.body[-1]]
+    early = [r for r in rets if id(r) in pre_nodes]
     ok = len(early) == 1 and any(isinstance(p, ast.If) and norm(p.test) in ('not %s.%s' % (new_s, ro.TEXT), 'len(%s.%s) == 0' % (new_s, ro.TEXT)) for p in _parents(early[0]))
     R.check(ok and isinstance(f.body[-1], ast.Return), f, early[0] if early else f.node, 'only an empty slice returns before the closing block',
             '%d early returns' % len(early), construct='slice early return')
